@@ -19,8 +19,8 @@
        order, a name whose file type is in PopLinkTypes and whose st_nlink > 1 is looked up in the table `hdlinks` by
        (st_dev, st_ino), a hit becomes add_link() to the recorded inode, a miss creates the inode and records it.
        PopLinkTypes = NonDirKinds is what the property needs (same image inode <=> same (st_dev, st_ino) on the host, for
-       every non-directory type); LiteralLinkTypes is what the pinned create_inode.c does (it leaves symlinks out:
-       named deviation DevSymlinkLinksSplit).  set_inode_extra()
+       every non-directory type); LiteralLinkTypes is what the pinned create_inode.c did (it left symlinks out:
+       named deviation DevSymlinkLinksSplit, repaired by fix f519e89c and reported again if it returns).  set_inode_extra()
        copies owner, all non-type mode bits and the times; copy_file() copies only SEEK_DATA ranges rounded out to
        filesystem blocks.  Extraction RdumpModel(): debugfs/dump.c rdump_inode() -- regular files, directories and
        symlinks only, permission bits through mode_xlate (rwx only), owner through fchown/chown.
